@@ -165,6 +165,7 @@ def cmd_check(prop, tier, nruns=None, survey=False):
     stats = collections.Counter()
     rejected = collections.Counter()
     digests = set()
+    states = set()
     nontrivial_digests = set()
     viol = []
     herr = []
@@ -174,6 +175,7 @@ def cmd_check(prop, tier, nruns=None, survey=False):
             herr.append(r)
             continue
         steps += r['steps']
+        states.update(r.get('state_sample') or ())
         stats.update(r['stats'])
         digests.add(r['log_digest'])
         if r['rejected']:
@@ -239,6 +241,11 @@ def cmd_check(prop, tier, nruns=None, survey=False):
             'simulated_steps': steps,
             'runs_per_hour': int(done / wall * 3600) if wall > 0 else 0,
             'distinct_event_logs': len(digests),
+            'distinct_ref_states_estimate': 16 * len(states),
+            'distinct_ref_states_measure': ('reference-state digests after each step; workers report the '
+                                            '1-in-16 sample whose digest starts with 0, the union is '
+                                            'counted and multiplied by 16 (0 for worlds without a '
+                                            'per-step reference state: C03, C04, C08, C16, C17)'),
             'fault_fired': {k[6:]: v for k, v in sorted(stats.items()) if k.startswith('fault:')},
             'probes': {k[6:]: v for k, v in sorted(stats.items()) if k.startswith('probe:')},
             'ops': {k[3:]: v for k, v in sorted(stats.items()) if k.startswith('op:')},
